@@ -83,7 +83,7 @@ let () =
     for _ = 1 to ai a 1 do c := cart_tick !c done;
     st := Some !c);
   register "cart.dump" (fun _ ->
-    let (k, h) = digest (ok (cart_dump (cur ()))) in
+    let (k, h) = digest (cart_dump (cur ())) in
     emit (Printf.sprintf "%d %d" k h));
   register "rtc.set" (fun a ->
     let c = cur () in
